@@ -48,10 +48,16 @@ theorem tail_step_consumed (s : c.σ) (b : UInt8) (bs : Bytes)
 theorem tail_step_unread (L : c.Lawful) (s : c.σ) (b : UInt8) (bs : Bytes)
     (h : (c.decStep s b).consumed = false) :
     c.tail s (b :: bs) = (c.decStep s b).out ++ c.tail (c.decStep s b).st (b :: bs) := by
-  have hi := L.unread_init s b h
-  have hc := L.init_consumes b
+  have hc := L.unread_once s b h
   rw [tail_cons, tail_cons]
-  simp [step2, h, hi, hc, List.append_assoc]
+  simp [step2, h, hc, List.append_assoc]
+
+/-- the usual way to get `unread_once`: a byte is unread only when falling back to the neutral state,
+which consumes every byte -/
+theorem unread_once_of (c : Codec) (hi : ∀ b, (c.decStep c.init b).consumed = true)
+    (hu : ∀ s b, (c.decStep s b).consumed = false → (c.decStep s b).st = c.init) :
+    ∀ s b, (c.decStep s b).consumed = false → (c.decStep (c.decStep s b).st b).consumed = true := by
+  intro s b h; rw [hu s b h]; exact hi b
 
 theorem decodeAll_eq (c : Codec) (bs : Bytes) : c.decodeAll bs = c.tail c.init bs := rfl
 
@@ -111,9 +117,7 @@ theorem decodeAux_sound (L : c.Lawful) (last : Bool) (more : Bytes) (hm : last =
             (free - utf8Len (c.decStep s b).out) (c.decStep (c.decStep s b).st b).out (b :: rest) = true
         · simp [hs2, remTail]
         · simp only [hs2, Bool.false_eq_true, if_false]
-          have hi := L.unread_init s b hc'
-          have hcc : (c.decStep (c.decStep s b).st b).consumed = true := by
-            rw [hi]; exact L.init_consumes b
+          have hcc : (c.decStep (c.decStep s b).st b).consumed = true := L.unread_once s b hc'
           rw [Codec.tail_step_consumed _ b _ hcc,
             ih (pol.next (pol.next p s free (b :: rest) (c.decStep s b)) (c.decStep s b).st
               (free - utf8Len (c.decStep s b).out) (b :: rest) (c.decStep (c.decStep s b).st b))
